@@ -145,7 +145,7 @@ def negative_probes(ctx, rng, binp, n):
 def run(ctx):
     rng = ctx.rng
     projects = [proj.gen_project(rng, {"fk": True, "mixed": True}) for _ in range(ctx.budget(1200, 25000))]
-    generic_pipeline_check(ctx, [("I18nVerif.Theorems.C08", "C08_")], projects, oracle, "C08")
+    generic_pipeline_check(ctx, [("I18nVerif.Theorems.C08", "C08_"), ("I18nVerif.Theorems.C08Pipeline", "C08_")], projects, oracle, "C08")
     probe.run_render_probe(ctx, rng, n_crates=ctx.budget(1, 3), flavours=("string",), sig_prefix="args", per_key=1)
     binp = build_parser(ctx)
     if binp is not None:
